@@ -35,6 +35,27 @@ CHECKS = {
              "strings per class and in foreign XML spellings, and the independent structural projection must equal TLC's normal form and "
              "re-serialisation must be byte-identical.",
         design="6/C03", technique=CODEC_TECH),
+    "C06": dict(
+        text="Device.tla models the driver side operationally (Vector.from_new_message child loop, set_value -> Write handlers -> setter -> "
+             "rule -> publication -> Change handlers); TLC checks FrameOK and TakenOK (exactly the named elements of the addressed vector of "
+             "the accepting devices take the submitted values, subject only to the switch rule) for every client write in a two-device "
+             "deployment from every state reachable in <= 2 (3 thorough) operations. Real generated drivers (random deployments: 1-3 devices, "
+             "five vector kinds, three rules, inheritance depth <= 3) execute random histories behind a real Router; every step is validated "
+             "by TraceDevice.tla, which re-evaluates the frame and taken predicates on it.",
+        design="6/C06", technique="TLA+ spec (Device.tla) + TLC model checking; TLC trace validation of real generated drivers"),
+    "C07": dict(
+        text="Device.tla's OpGetProperties is checked against ReplyExact (one definition per enabled addressed vector, listing exactly the "
+             "enabled elements with current values and the vector's state; nothing for unknown devices / names) in TLC and on every "
+             "getProperties step of the real-driver traces (bag comparison: order of definitions is free); every message any driver emits in "
+             "any trace is serialised, re-parsed by the library's own parser and must compare equal and re-serialise identically, and the "
+             "definition's metadata (group, label, perm, rule, element labels) is compared with the deployment.",
+        design="6/C07", technique="TLA+ spec (Device.tla) + TLC model checking; TLC trace validation of real generated drivers"),
+    "C09": dict(
+        text="Device.tla restricted to one switch vector: TLC enumerates all three rules x 1..4 (5 thorough) switches x every initial "
+             "configuration x every operation (assignment, bool/selected values, client writes naming 1-3 switches in every order) and checks "
+             "RulePreserved, PubRuleOK (every published snapshot) and AssignOnOK on every transition. Every transition of every graph is "
+             "replayed on a fresh real generated driver and validated by TraceDevice.tla; random deployments add switch vectors in context.",
+        design="6/C09", technique="TLA+ spec (Device.tla) + TLC exhaustive model checking; one real-driver replay per transition, validated by TLC"),
     "C10": dict(
         text="Numbers.tla states rendering/denotation/INDI-grammar parsing in exact integer arithmetic; TLC checks Inverse, field ranges, "
              "RenderOK and ParseBack (all three separators) on the complete resolution grid of %.3m (all of %.3m/%.5m/%.6m in the thorough "
@@ -43,12 +64,29 @@ CHECKS = {
              "all m formats and 125 printf formats are tokenised and judged by TLC (RenderOK / PrintfOK on exact limbs) together with the "
              "parse-back value.",
         design="6/C10", technique="TLA+ spec (Numbers.tla) + TLC exhaustive grid checking; TLC judges tokenised real renderings (NumbersJudge.tla)"),
+    "C12": dict(
+        text="Device.tla: client writes with unknown device / property / element, inconvertible values, wrong kinds and duplicates must never "
+             "raise and may change only validly named elements (P_Robust, P_Frame in TLC and on every step of the real-driver traces). Transport "
+             "level (Robust.tla): a fault catalogue of hostile-but-well-formed XML (unknown names, empty device, kind mismatch, invalid switch / "
+             "number / base64 text, wrong / missing / non-numeric BLOB size, no children, duplicates, server-only kinds) is sent through the real "
+             "TCP handler, the real TTY handler and direct router calls at every position of a session; after each, nothing raised, the "
+             "connection is registered and open, other clients undisturbed, only allowed elements changed, and a valid getProperties is answered "
+             "with the owed number of definitions - validated by TraceRobust.tla.",
+        design="6/C12", technique="TLA+ specs (Device.tla, Robust.tla) + TLC model checking; TLC trace validation of real drivers and real TCP/TTY handler sessions"),
     "C13": dict(
         text="TLC generates XML infosets with one systematic perturbation of each constrained field / required attribute / child kind / "
              "tag (OnlyConformant checked on the model); each is written as XML and given to the real parser together with seeded random "
              "XML; the projection of everything the real parser accepts is sent back to TLC, which evaluates the declarative predicate "
              "Conformant on it (one-directional: rejecting is always fine).",
         design="6/C13", technique=CODEC_TECH + "; TLC judges the real parser's outputs (CodecJudge.tla)"),
+    "C14": dict(
+        text="Device.tla models raise_event exactly (plain handlers called in attachment order, coroutine handlers queued as tasks, veto via "
+             "prevent_default, Read handlers on every value read, Change after publication); TLC checks WriteContract (each plain Write handler "
+             "once with the requested value before any change, coroutine handlers queued, veto => nothing changes or is published, otherwise one "
+             "update carrying the value and Change handlers once with old/new iff the value changed; assignment raises no Write) from every state "
+             "reachable in <= 2 (3) operations. Generated real drivers carry the same handler configurations as @on methods that log what they "
+             "saw; handler log, published messages and task counts of every step are validated by TraceDevice.tla.",
+        design="6/C14", technique="TLA+ spec (Device.tla) + TLC model checking; TLC trace validation of real generated drivers with logging handlers"),
     "C17": dict(
         text="WaitForEvent.tla models the wait on a discrete virtual clock (arrivals on the half grid, timers on the grid, the callback "
              "synchronous inside message processing, the waiter resuming one loop iteration later); TLC checks Outcome (first match or timeout "
